@@ -15,6 +15,53 @@ MODULES = ["ZorgVerif.Props.C06"]
 QUERIES = ["W o | x | ~ | < | > | -", "W #work", "W o P0-3", "W due:*", "W 'edited'", "W [[a]]", "W f=new*", "W !#work -", "S file W o | -", "W ^240601:240701"]
 
 
+class TrackedWorld(H.World):
+    """records the history in the alphabet of Model/Index.lean (write / remove / reindex / reindexOnly) together with the
+    outcome of processing each changed text (its text after write-back), so that the model can replay it"""
+
+    def start_tracking(self):
+        import faults as F
+
+        self.F = F
+        files, hashes, db = F.store_of(self.zdir)
+        self.m_files = dict(files)
+        self.start = {"files": files, "hashes": hashes, "db": {p: files.get(p, "?") for p in db}}
+        self.ops, self.proc, self.model_ok = [], {}, True
+
+    def _cur(self):
+        return self.F.store_of(self.zdir)[0]
+
+    def run(self, *args):
+        tracked = hasattr(self, "ops") and args[:2] == ("db", "reindex")
+        if tracked:
+            cur = self._cur()
+            for p in sorted(set(self.m_files) - set(cur)):
+                self.ops.append(["remove", p])
+            for p, t in cur.items():
+                if self.m_files.get(p) != t:
+                    self.ops.append(["write", p, t])
+            paths = [str(Path(a).resolve().relative_to(self.zdir.resolve())) if Path(a).is_absolute() else a for a in args[2:]]
+            self.ops.append(["reindexOnly", paths] if paths else ["reindex"])
+        rc = super().run(*args)
+        if tracked:
+            post = self._cur()
+            if rc != 0:
+                self.model_ok = False
+            for p, t in cur.items():
+                if p in post and post[p] != t:
+                    if self.proc.get(t, post[p]) != post[p]:
+                        self.model_ok = False  # the same text processed twice with different outcomes (another day): not a function of the text
+                    self.proc[t] = post[p]
+            self.m_files = dict(post)
+        return rc
+
+    def model_request(self):
+        files, hashes, db = self.F.store_of(self.zdir)
+        req = {"op": "index.run", "files": [[p, [t]] for p, t in self.start["files"].items()], "hashes": [[p, [t]] for p, t in self.start["hashes"].items()],
+               "db": [[p, [t]] for p, t in self.start["db"].items()], "proc": [[k, [v]] for k, v in self.proc.items()], "ops": self.ops}
+        return req, {"files": files, "hashes": hashes, "db": sorted(db)}
+
+
 def run_history(ctx, res, rng, hid, allow=("delete_page", "rename_page", "paths")):
     zdir = ctx.tmp / "z"
     if zdir.exists():
@@ -22,10 +69,11 @@ def run_history(ctx, res, rng, hid, allow=("delete_page", "rename_page", "paths"
     zdir.mkdir(parents=True)
     cfg = Z.write_config(ctx.tmp / "cfg.yml")
     G.write_dir(zdir, G.gen_dir(rng, npages=(2, 4), with_zid=0.8, date_prob=0.1, far_dates=False))
-    w = H.World(ctx, rng, zdir, cfg)
+    w = TrackedWorld(ctx, rng, zdir, cfg)
     if w.run("db", "create") != 0:
         res.notes.append("initial db create failed")
         return
+    w.start_tracking()
     nops = rng.randint(8, 22)
     for _ in range(nops):
         r = rng.random()
@@ -59,6 +107,7 @@ def run_history(ctx, res, rng, hid, allow=("delete_page", "rename_page", "paths"
         res.failures.append(C.Failure("final db reindex failed", {"log": w.log, "kind": "reindex_failed"}))
         return
     inc = H.canon_dump(zdir)
+    mreq = w.model_request() if w.model_ok else None
     files_final = w.files()
     # C06_plain_reindex, second conjunct: after a plain reindex the hash map records exactly the current files
     import hashlib
@@ -73,7 +122,7 @@ def run_history(ctx, res, rng, hid, allow=("delete_page", "rename_page", "paths"
         k = next(k for k in sorted(set(hm) | set(want)) if hm.get(k) != want.get(k))
         res.failures.append(C.Failure(f"after the final plain reindex the hash map does not describe the files: entry {k!r} is {str(hm.get(k))[:12]}, file hash {str(want.get(k))[:12]}",
                                       {"log": w.log, "kind": "hash_map", "page": k}))
-        return
+        return mreq
     # fresh index of a copy of the final files
     fresh = ctx.tmp / "fresh"
     if fresh.exists():
@@ -83,7 +132,7 @@ def run_history(ctx, res, rng, hid, allow=("delete_page", "rename_page", "paths"
     w2 = H.World(ctx, rng, fresh, cfg, start=(w.day.year, w.day.month, w.day.day))
     if w2.run("db", "create") != 0:
         res.failures.append(C.Failure("db create on a copy of the final files failed", {"log": w.log, "kind": "create_failed"}))
-        return
+        return mreq
     fr = H.canon_dump(fresh)
     res.evaluations += 1
     res.nontrivial.add(tuple(str(x) for x in w.log))
@@ -100,7 +149,7 @@ def run_history(ctx, res, rng, hid, allow=("delete_page", "rename_page", "paths"
             kinds.append("stale_page")
         res.failures.append(C.Failure(f"incremental index differs from a fresh index of the final files: only-incremental {extra}, only-fresh {missing}",
                                       {"log": w.log, "kind": "differs", "sub": kinds, "stale_paths": sorted({x[0] for x in extra if x[0] not in files_final})}))
-        return
+        return mreq
     # sampled queries on both
     from freezegun import freeze_time
     from zorg.service import swog
@@ -113,11 +162,30 @@ def run_history(ctx, res, rng, hid, allow=("delete_page", "rename_page", "paths"
             b = swog.execute(fresh, f"sqlite:///{fresh}/.zorg/zorg.db", q + " O none G none")
             if a != b:
                 res.failures.append(C.Failure(f"query {q!r} answers differently on the incremental and the fresh index", {"log": w.log, "kind": "query"}))
-                return
+                return mreq
+    return mreq
 
 
 def body(ctx: C.Ctx, proof: C.ProofStatus) -> C.Result:
-    res, _ = C.parallel_jobs(ctx, ctx.scale(48, 600), run_history)
+    res, rets = C.parallel_jobs(ctx, ctx.scale(48, 600), run_history)
+    # store-level correspondence: the recorded history replayed by Model/Index.lean (`Index.run`) must end in the same
+    # files, the same saved hash map and the same set of indexed pages
+    pairs = [r for r in rets if r]
+    if proof.driver_ok and pairs:
+        for (req, want), m in zip(pairs, C.model_batch([q for q, _ in pairs])):
+            res.evaluations += 1
+            res.count("model_histories")
+            if "files" not in m:
+                res.disagreements.append(C.Failure(f"Index model gives no store: {str(m)[:200]}", {"ops": req["ops"]}, "correspondence"))
+                continue
+            got = {"files": dict(map(tuple, m["files"])), "hashes": dict(map(tuple, m["hashes"])), "db": sorted(k for k, _ in m["db"])}
+            for part in ("files", "hashes", "db"):
+                if got[part] != want[part]:
+                    a, b = got[part], want[part]
+                    keys = sorted(set(a) ^ set(b)) if part == "db" else sorted(k for k in set(a) | set(b) if a.get(k) != b.get(k))
+                    res.disagreements.append(C.Failure(f"store model vs implementation after the history: {part} differ at {keys[:3]} (model {str([a.get(k) if part != 'db' else k in a for k in keys[:3]])[:200]}, "
+                                                       f"implementation {str([b.get(k) if part != 'db' else k in b for k in keys[:3]])[:200]})", {"ops": req["ops"], "part": part}, "correspondence"))
+                    break
     return res
 
 
@@ -129,7 +197,8 @@ RULE = (
     "histories of 8-22 operations over generated indexed directories: body / bullet / kind / priority edits, added, deleted and moved items, added and "
     "retitled sections, header-line edits, comments, added / deleted / renamed / deleted-then-restored pages, days advancing, `db reindex` with and without explicit paths "
     "(relative and absolute), ending with a plain reindex; canonical raw-SQL dump of the incremental index vs `db create` on a copy of the final "
-    "files, the hash map vs the files, plus 10 sampled queries on both; non-trivial = distinct history"
+    "files, the hash map vs the files, plus 10 sampled queries on both; every history is also replayed by the Lean store model "
+    "(Index.run over write / remove / reindex / reindexOnly with the observed write-back outcomes): files, saved hash map and indexed pages must coincide; non-trivial = distinct history"
 )
 ASSUME = ["file system and SQLite atomic; explicit edits only between commands"]
 
